@@ -19,11 +19,18 @@
   * `absent_reading`      None ↦ None
   * `inverse_roundtrip`   intended inverse ∘ forward = id  for ALL M ≠ 0, B, K1, K2 (algebra over ℚ)
   * `negative_zero_not_recovered`    why 1's-complement 0xFF is excluded
+  * `gen_*_eq`            the model's expressions ARE the expressions translated from today's source
+    (`Gen.SensorExpr`): `gen_signedRaw_eq`, `gen_arg_eq`, `gen_convert_eq`, `gen_rawQ_eq`,
+    `gen_encodeSigned_eq`, `gen_valueToRaw_eq`, `gen_convertComplement_eq`
+  * `gen_signed_spec`, `gen_forward_argument`, `gen_inverse_roundtrip`   the property theorems restated
+    for the generated definitions
   * `inverse_asShipped_counterexample`, `inverse_formula_counterexample`,
-    `inverse_sign_counterexample`    the pinned code's inverse violates the property
+    `inverse_sign_counterexample`    the ORIGINAL pinned code's inverse (Variant.asShipped, a frozen
+    variant kept as documentation; /repo has been repaired since) violates the property
     (witness M=2, B=3: 10 ↦ 23 ↦ 8), and each of its two deviations does so on its own
 -/
 import PyIpmi.Lemmas.Sensor
+import PyIpmi.Gen.SensorExpr
 namespace PyIpmi.Props.C17
 open PyIpmi PyIpmi.Sensor
 
@@ -119,6 +126,81 @@ theorem negative_zero_not_recovered :
   rw [convert_of_tag F _ _ 0 (by decide +kernel)]
   simp only [applyTag]
   decide +kernel
+
+/-! ### the generated expressions are the model's expressions
+
+`Gen.SensorExpr` is re-translated from the AST of `convert_sensor_raw_to_value`,
+`convert_sensor_value_to_raw` and `_convert_complement` of the working tree on every run
+(harness/translate/sdrexpr.py).  The `gen_*_eq` theorems say that the model (`Variant.intended`)
+is, statement by statement, the generated expression: the sign conversions, the argument of the
+linearisation, the inverse formula (subtract, then divide), the two negative encodings and the
+variable their `if … < 0` tests (the rounded raw number, not the value), the two guards.  The
+remaining `gen_*` theorems restate the property theorems for the generated definitions. -/
+
+theorem gen_convertComplement_eq (value size : Nat) :
+    Gen.SensorExpr.convertComplement value size = convertComplement value size := by
+  have h : ((size : Int) - 1).toNat = size - 1 := by omega
+  simp only [Gen.SensorExpr.convertComplement, Gen.SensorExpr.cc_value, convertComplement, h]
+
+theorem gen_signedRaw_eq (fmt raw : Nat) : Gen.SensorExpr.fwd_raw_1 fmt raw = signedRaw fmt raw := rfl
+
+theorem gen_arg_eq (r : Rec) (raw : Nat) :
+    Gen.SensorExpr.fwd_lin_arg r.m r.fmt raw r.b r.k1 r.k2 = arg r raw := rfl
+
+theorem gen_rawQ_eq (r : Rec) (value : Rat) :
+    Gen.SensorExpr.inv_raw_1 value r.k2 r.b r.k1 r.m = rawQ Variant.intended r value := rfl
+
+theorem gen_encodeSigned_eq (fmt : Nat) (raw : Int) :
+    Gen.SensorExpr.inv_raw_2 fmt raw = encodeSigned fmt (decide (raw < 0)) raw := by
+  simp only [Gen.SensorExpr.inv_raw_2, encodeSigned, PyInt.pyXor_7f, PyInt.pyOr_80, decide_eq_true_eq]
+
+theorem gen_valueToRaw_eq (r : Rec) (value : Rat) :
+    valueToRaw Variant.intended r value =
+      if Gen.SensorExpr.inv_guard_1 r.lin = true then .pyError Gen.SensorExpr.inv_guard_1_exc
+      else if r.m = 0 then .pyError "ZeroDivisionError"
+      else if Gen.SensorExpr.inv_guard_2 r.fmt (roundHalfEven (Gen.SensorExpr.inv_raw_1 value r.k2 r.b r.k1 r.m)) = true
+        then .pyError Gen.SensorExpr.inv_guard_2_exc
+      else .ok (Gen.SensorExpr.inv_raw_2 r.fmt (roundHalfEven (Gen.SensorExpr.inv_raw_1 value r.k2 r.b r.k1 r.m))) := by
+  have hg1 : Gen.SensorExpr.inv_guard_1 r.lin = decide (r.lin &&& 0x7f ≠ 0) := rfl
+  have hg2 : ∀ z, Gen.SensorExpr.inv_guard_2 r.fmt z = decide (encodeSigned r.fmt (decide (z < 0)) z > 0xff) := by
+    intro z; simp only [Gen.SensorExpr.inv_guard_2, gen_encodeSigned_eq]
+  simp only [valueToRaw, hg1, hg2, gen_rawQ_eq, gen_encodeSigned_eq, decide_eq_true_eq,
+    Gen.SensorExpr.inv_guard_1_exc, Gen.SensorExpr.inv_guard_2_exc, Variant.intended, Bool.false_eq_true, if_false]
+  rfl
+
+theorem gen_convert_eq (F : Spec.Sensor.Fns) (r : Rec) (raw : Nat) :
+    convert F r (some raw) =
+      some (match linTag r.lin with
+        | none => .decodingError
+        | some t => applyTag F t (Gen.SensorExpr.fwd_lin_arg r.m r.fmt raw r.b r.k1 r.k2)) := rfl
+
+theorem gen_signed_spec (r : Nat) (h : r < 256) :
+    Gen.SensorExpr.fwd_raw_1 0 r = (r : Int) ∧
+    Gen.SensorExpr.fwd_raw_1 1 r = (if r < 128 then (r : Int) else (r : Int) - 255) ∧
+    Gen.SensorExpr.fwd_raw_1 2 r = (if r < 128 then (r : Int) else (r : Int) - 256) ∧
+    Gen.SensorExpr.fwd_raw_1 3 r = (r : Int) := by
+  simp only [gen_signedRaw_eq]; exact signed_spec r h
+
+theorem gen_forward_argument (fmt raw : Nat) (m b k1 k2 : Int) (h : raw < 256) :
+    Gen.SensorExpr.fwd_lin_arg m fmt raw b k1 k2 =
+      Spec.Sensor.affine ⟨m, b, k1, k2⟩ (Spec.Sensor.signed (Spec.Sensor.Fmt.ofCode fmt) raw : Int) :=
+  (gen_arg_eq ⟨fmt, 0, m, b, k1, k2⟩ raw).trans (forward_argument ⟨fmt, 0, m, b, k1, k2⟩ raw h)
+
+theorem gen_inverse_roundtrip (fmt raw : Nat) (m b k1 k2 : Int) (hraw : raw < 256) (hm : m ≠ 0)
+    (hz : ¬ (fmt = 1 ∧ raw = 0xFF)) :
+    Gen.SensorExpr.inv_guard_2 fmt
+      (roundHalfEven (Gen.SensorExpr.inv_raw_1 (Gen.SensorExpr.fwd_lin_arg m fmt raw b k1 k2) k2 b k1 m)) = false ∧
+    Gen.SensorExpr.inv_raw_2 fmt
+      (roundHalfEven (Gen.SensorExpr.inv_raw_1 (Gen.SensorExpr.fwd_lin_arg m fmt raw b k1 k2) k2 b k1 m)) = (raw : Int) := by
+  have hr : roundHalfEven (Gen.SensorExpr.inv_raw_1 (Gen.SensorExpr.fwd_lin_arg m fmt raw b k1 k2) k2 b k1 m)
+      = signedRaw fmt raw := by
+    rw [gen_arg_eq ⟨fmt, 0, m, b, k1, k2⟩ raw, gen_rawQ_eq ⟨fmt, 0, m, b, k1, k2⟩,
+      rawQ_intended_arg ⟨fmt, 0, m, b, k1, k2⟩ raw hm, roundHalfEven_int]
+  have he : Gen.SensorExpr.inv_raw_2 fmt (signedRaw fmt raw) = (raw : Int) := by
+    rw [gen_encodeSigned_eq, encodeSigned_signedRaw fmt raw hraw hz]
+  refine ⟨?_, by rw [hr, he]⟩
+  simp only [Gen.SensorExpr.inv_guard_2, hr, he, decide_eq_false_iff_not]
+  omega
 
 /-! ### the pinned code (as shipped) violates the property -/
 
